@@ -1,0 +1,46 @@
+//go:build verif
+
+package dcs
+
+import (
+	"context"
+	"net"
+	"time"
+
+	"github.com/go-zookeeper/zk"
+
+	"github.com/yandex/mysync/internal/log"
+)
+
+type verifStaticHosts struct {
+	servers []string
+	i       int
+}
+
+func (h *verifStaticHosts) Init(servers []string) error { h.servers = servers; return nil }
+func (h *verifStaticHosts) Len() int                    { return len(h.servers) }
+func (h *verifStaticHosts) Next() (string, bool) {
+	s := h.servers[h.i%len(h.servers)]
+	h.i++
+	return s, h.i > 1 && (h.i-1)%len(h.servers) == 0
+}
+func (h *verifStaticHosts) Connected() { h.i = 0 }
+
+// NewZookeeperVerif is NewZookeeper with an injectable dialer (no TLS/auth, static host list).
+func NewZookeeperVerif(ctx context.Context, config *ZookeeperConfig, logger *log.Logger,
+	dialer func(network, address string, timeout time.Duration) (net.Conn, error)) (DCS, error) {
+	conn, ec, err := zk.Connect(config.Hosts, config.SessionTimeout,
+		zk.WithLogger(zkLoggerProxy{logger}), zk.WithDialer(dialer), zk.WithHostProvider(&verifStaticHosts{}))
+	if err != nil {
+		return nil, err
+	}
+	z := &zkDCS{
+		config:             config,
+		logger:             logger,
+		conn:               conn,
+		disconnectCallback: func() error { return nil },
+		eventsChan:         ec,
+	}
+	go z.handleEvents()
+	return z, nil
+}
